@@ -210,6 +210,39 @@ int main(int argc, char **argv) {
         else rc = ::GetSelectedOutputValueF(&id, &row, &col, &vt, &dv, &buf[0], &len);
         out = "{\"r\":" + jint(rc) + ",\"vt\":" + jint(vt) + ",\"d\":\"" + hexd(dv) + "\",\"buf\":" + jstr(std::string(&buf[0], cap + 4)) + ",\"len\":" + jint(len) + "}";
       }
+      else if (op == "probe") {
+        // probe id buflen : all accessors on every (row, col) of the current user number, borders and far values included
+        int id = atoi(f[1].c_str()), cap = atoi(f[2].c_str());
+        IPhreeqc *p = live(id);
+        if (!p) out = "{\"notlive\":1}";
+        else {
+          int R = p->GetSelectedOutputRowCount(), C = p->GetSelectedOutputColumnCount();
+          std::vector<int> rs, cs;
+          for (int r = -2; r <= R + 1; ++r) rs.push_back(r);
+          for (int c = -2; c <= C + 1; ++c) cs.push_back(c);
+          rs.push_back(INT_MAX); rs.push_back(INT_MIN); cs.push_back(INT_MAX); cs.push_back(INT_MIN);
+          std::ostringstream o;
+          o << "{\"R\":" << R << ",\"C\":" << C << ",\"RF\":" << ::GetSelectedOutputRowCountF(&id) << ",\"CF\":" << ::GetSelectedOutputColumnCountF(&id) << ",\"cells\":[";
+          bool first = true;
+          for (size_t i = 0; i < rs.size(); ++i) for (size_t j = 0; j < cs.size(); ++j) {
+            int r = rs[i], c = cs[j];
+            VAR v; VarInit(&v); int rc1 = ::GetSelectedOutputValue(id, r, c, &v);
+            VAR w; VarInit(&w); int rc2 = p->GetSelectedOutputValue(r, c, &w);
+            o << (first ? "" : ",") << "{\"r\":" << r << ",\"c\":" << c << ",\"crc\":" << rc1 << ",\"cv\":" << jvar(v) << ",\"mrc\":" << rc2 << ",\"mv\":" << jvar(w);
+            first = false;
+            VarClear(&v); VarClear(&w);
+            { std::vector<char> buf(cap + 8, '#'); int vt = -77; double dv = -7777.0;
+              int rc = ::GetSelectedOutputValue2(id, r, c, &vt, &dv, &buf[0], (unsigned)cap);
+              o << ",\"v2\":{\"rc\":" << rc << ",\"vt\":" << vt << ",\"d\":\"" << hexd(dv) << "\",\"buf\":" << jstr(std::string(&buf[0], cap + 4)) << "}"; }
+            if (c < INT_MAX) { std::vector<char> buf(cap + 8, '#'); int vt = -77; double dv = -7777.0; int len = cap; int rr = r, cc = c + 1, idd = id;
+              int rc = ::GetSelectedOutputValueF(&idd, &rr, &cc, &vt, &dv, &buf[0], &len);
+              o << ",\"vf\":{\"rc\":" << rc << ",\"vt\":" << vt << ",\"d\":\"" << hexd(dv) << "\",\"buf\":" << jstr(std::string(&buf[0], cap + 4)) << ",\"len\":" << len << "}"; }
+            o << "}";
+          }
+          o << "]}";
+          out = o.str();
+        }
+      }
       else if (op == "obs") {
         IPhreeqc *p = live(atoi(f[1].c_str()));
         out = p ? obs(p, f.size() > 2 && f[2] == "lines") : "{\"notlive\":1}";
